@@ -228,15 +228,24 @@ def check(prop: str, tier: str, seed: int, replay: str | None = None) -> int:
 
     if traces:
         shards = getattr(drv, 'SHARDS', {'quick': 4, 'thorough': 8})[tier]
-        verdicts, tstats = tlc.validate_traces(
-            drv.TRACE_SPEC, traces, consts=getattr(drv, 'TRACE_CONSTS', ''), shards=shards,
-            deque=getattr(drv, 'DEQUE', False))
-        ev['coverage']['trace_validation'] = {
-            'spec': drv.TRACE_SPEC, 'states_generated': tstats['generated'],
-            'distinct_states': tstats['distinct'], 'wall_s': round(tstats['wall'], 2),
-            'cmd': tstats['cmd']}
-        ev['coverage']['states'] += tstats['distinct']
-        ev['coverage']['transitions'] += tstats['generated']
+        # a driver may record traces for more than one trace specification (trace['_spec'])
+        groups: dict = {}
+        for i, tr in enumerate(traces):
+            groups.setdefault(tr.pop('_spec', drv.TRACE_SPEC), []).append(i)
+        verdicts = [None] * len(traces)
+        ev['coverage']['trace_validation'] = []
+        for spec_name, idxs in groups.items():
+            vs, tstats = tlc.validate_traces(
+                spec_name, [traces[i] for i in idxs], consts=getattr(drv, 'TRACE_CONSTS', ''),
+                shards=shards, deque=getattr(drv, 'DEQUE', False))
+            for i, v in zip(idxs, vs):
+                verdicts[i] = v
+            ev['coverage']['trace_validation'].append({
+                'spec': spec_name, 'traces': len(idxs), 'states_generated': tstats['generated'],
+                'distinct_states': tstats['distinct'], 'wall_s': round(tstats['wall'], 2),
+                'cmd': tstats['cmd']})
+            ev['coverage']['states'] += tstats['distinct']
+            ev['coverage']['transitions'] += tstats['generated']
         seen = set()
         nontriv = 0
         accepted = 0
